@@ -69,7 +69,7 @@ func parseCron(spec string) (sched cron.Schedule, err error) {
 func (rule *RuleEvents) checkCron(spec *String) {
 	sched, err := parseCron(spec.Value)
 	if err != nil {
-		rule.Errorf(spec.Pos, "invalid CRON format %q in schedule event: %s", spec.Value, err.Error())
+		rule.Errorf(spec.Pos, "invalid CRON format %q in schedule event: %s", spec.Value, escapeLineBreaks(err.Error()))
 		return
 	}
 
